@@ -48,6 +48,20 @@ type call struct {
 	Count int    `json:"count,omitempty"`
 	Inj   bool   `json:"injected"`
 	OK    bool   `json:"ok"`
+	Ident string `json:"ident,omitempty"`
+	Err   string `json:"err,omitempty"`
+}
+
+func (c call) mterm() string {
+	switch c.Kind {
+	case "CCreateProc":
+		return fmt.Sprintf("(MCreateProc %s %s %s %s)", vh.Str(c.Ident), vh.Str(c.Node), vh.ZI(c.Count), vh.Bool(c.Inj))
+	case "CAdd":
+		return fmt.Sprintf("(MAdd %s %s %s %s)", vh.Str(c.Ident), vh.Str(c.Node), vh.Str(c.ID), vh.Bool(c.Inj))
+	case "CRemove":
+		return fmt.Sprintf("(MRemove %s %s %s)", vh.Str(c.Node), vh.Str(c.ID), vh.Bool(c.Inj))
+	}
+	return fmt.Sprintf("(MDelProc %s %s %s)", vh.Str(c.Ident), vh.Str(c.Node), vh.Bool(c.Inj))
 }
 
 func (c call) term() string {
@@ -96,11 +110,36 @@ func (p *prober) tryTake() (probe, error) {
 	return out, nil
 }
 
+// lightTake: GetDeployStatus through the store, the recorded workloads by looking at
+// the deploy keys of miniredis directly (no redis commands: it runs inside the server's
+// command hook and must be quick)
+func (p *prober) lightTake() (probe, error) {
+	out := probe{}
+	st, err := p.w.RawStore.GetDeployStatus(p.w.Ctx, app, entry)
+	if err != nil {
+		return out, err
+	}
+	keys := p.w.Redis.Keys()
+	for _, n := range p.nodes {
+		out.Status = append(out.Status, st[n])
+		prefix := fmt.Sprintf("/deploy/%s/%s/%s/", app, entry, n)
+		cnt := 0
+		for _, k := range keys {
+			if strings.HasPrefix(k, prefix) {
+				cnt++
+			}
+		}
+		out.Recorded = append(out.Recorded, cnt)
+	}
+	return out, nil
+}
+
 // cmdProbe probes the deploy status before every command redis receives while a
 // store call of the deployment is in flight (redis backend; miniredis pre-hook).
 type cmdProbe struct {
 	mu      sync.Mutex
 	armed   bool
+	match   []string // only commands mentioning one of these (workload id, marker key) belong to the call in flight
 	probing int32
 	probes  []probe
 	pr      *prober
@@ -110,14 +149,23 @@ func (c *cmdProbe) install(w *cw.World) {
 	if w.Redis == nil {
 		return
 	}
-	w.Redis.Server().SetPreHook(func(_ *server.Peer, _ string, _ ...string) bool {
+	w.Redis.Server().SetPreHook(func(_ *server.Peer, _ string, args ...string) bool {
 		c.mu.Lock()
 		armed := c.armed
+		mine := false
+		for _, a := range args {
+			for _, m := range c.match {
+				if strings.Contains(a, m) {
+					mine = true
+				}
+			}
+		}
 		c.mu.Unlock()
-		if !armed || !atomic.CompareAndSwapInt32(&c.probing, 0, 1) {
+		// commands of other goroutines (reads of other instances, remap) do not stop the call in flight: skip them
+		if !armed || !mine || !atomic.CompareAndSwapInt32(&c.probing, 0, 1) {
 			return false
 		}
-		p, err := c.pr.tryTake()
+		p, err := c.pr.lightTake()
 		atomic.StoreInt32(&c.probing, 0)
 		if err == nil {
 			c.mu.Lock()
@@ -127,9 +175,9 @@ func (c *cmdProbe) install(w *cw.World) {
 		return false
 	})
 }
-func (c *cmdProbe) arm() {
+func (c *cmdProbe) arm(match ...string) {
 	c.mu.Lock()
-	c.armed, c.probes = true, nil
+	c.armed, c.probes, c.match = true, nil, match
 	c.mu.Unlock()
 }
 func (c *cmdProbe) disarm() []probe {
@@ -369,7 +417,9 @@ func storeStream(t *testing.T) {
 			intra := [][]probe{}
 			do := func(c call) bool {
 				var err error
-				cp.arm()
+				if c.Kind == "CAdd" {
+					cp.arm(c.ID, fmt.Sprintf("/processing/%s/%s/%s/%s", app, entry, c.Node, ident))
+				}
 				if c.Inj {
 					err = errors.New("injected")
 				} else {
@@ -494,11 +544,13 @@ func (s *probeStore) rec(kind, node, id string, count int, ident string, f func(
 	if ident != "" {
 		s.ident = ident
 	}
-	c := call{Kind: kind, Node: node, ID: id, Count: count}
+	c := call{Kind: kind, Node: node, ID: id, Count: count, Ident: ident}
 	ord := s.seen[kind]
 	s.seen[kind] = ord + 1
 	var err error
-	s.cp.arm()
+	if kind == "CAdd" {
+		s.cp.arm(id, fmt.Sprintf("/processing/%s/%s/%s/%s", app, entry, node, ident))
+	}
 	if s.injKind == kind && s.injOrd == ord {
 		c.Inj = true
 		err = errInjected
@@ -507,6 +559,9 @@ func (s *probeStore) rec(kind, node, id string, count int, ident string, f func(
 	}
 	s.intra = append(s.intra, s.cp.disarm())
 	c.OK = err == nil
+	if err != nil {
+		c.Err = err.Error()
+	}
 	s.calls = append(s.calls, c)
 	s.probes = append(s.probes, s.pr.take())
 	return err
@@ -707,8 +762,163 @@ func raceStream(t *testing.T) {
 	r.Finish("n = 2..8 goroutines call AddWorkload with the same processing marker (value k >= n) on the real etcd store at the same moment; observed: marker value and number of new records afterwards")
 }
 
+// ---------------------------------------------------------------- stream "concurrent"
+
+// several real CreateWorkload calls of the same (app, entrypoint) run at the
+// same time (both backends); the four deployment calls of all of them are
+// serialised and probed by the probing store wrapper; model: Calcium/DeployMulti.v.
+func concurrentStream(t *testing.T) {
+	r := vh.New(t, "C13", "concurrent")
+	r.Coq("From Verif Require Import Calcium.DeployStatus Calcium.DeployMulti.", "DeployMulti.case", "DeployMulti.agree", "DeployMulti.ok")
+	r.Shard = 30
+	total := r.N(16, 300)
+	rng := r.Rng
+	done := 0
+	opNo := 100
+	for wno := 0; done < total; wno++ {
+		backend := "redis"
+		if wno%3 == 2 {
+			backend = "etcd"
+		}
+		w, nodes := newWorld(t, backend)
+		pr := &prober{w: w, nodes: nodes}
+		addSiblings(w, nodes, rng.Intn, fmt.Sprintf("c%d", wno))
+		cp := &cmdProbe{pr: pr}
+		cp.install(w)
+		ps := &probeStore{Store: w.Store, pr: pr, cp: cp, seen: map[string]int{}}
+		w.C.VerifSetStore(ps)
+		for round := 0; round < 5 && done < total; round++ {
+			d0, m0 := pr.deployed(), pr.markers()
+			w.IC.Reset()
+			if rng.Intn(3) == 0 {
+				w.IC.SetFault(&cw.Addr{Method: "VirtualizationStart", Target: "*", Ord: rng.Intn(3)})
+			}
+			ps.mu.Lock()
+			ps.on, ps.calls, ps.probes, ps.intra, ps.ident, ps.seen = true, nil, []probe{pr.take()}, nil, "", map[string]int{}
+			ps.injKind, ps.injOrd = "", 0
+			ps.mu.Unlock()
+			k := 2 + rng.Intn(2)
+			var wg sync.WaitGroup
+			start := make(chan struct{})
+			for j := 0; j < k; j++ {
+				opNo++
+				opts := &types.DeployOptions{
+					Name: app, Entrypoint: &types.Entrypoint{Name: entry}, Podname: "p1", Image: "img",
+					Count: 1 + rng.Intn(3), DeployStrategy: []string{"AUTO", "FILL"}[rng.Intn(2)], NodeFilter: &types.NodeFilter{Podname: "p1"},
+					Resources: cw.CPUMem(0.1, 1<<20),
+				}
+				wg.Add(1)
+				go func() {
+					defer wg.Done()
+					<-start
+					ch, err := w.C.CreateWorkload(w.Ctx, opts)
+					if err != nil {
+						return
+					}
+					deadline := time.After(40 * time.Second)
+					for {
+						select {
+						case _, ok := <-ch:
+							if !ok {
+								return
+							}
+						case <-deadline:
+							return
+						}
+					}
+				}()
+			}
+			w.Hub.SetOp(opNo)
+			close(start)
+			wg.Wait()
+			w.Quiesce()
+			ps.mu.Lock()
+			ps.on = false
+			calls, probes, intra := append([]call{}, ps.calls...), append([]probe{}, ps.probes...), append([][]probe{}, ps.intra...)
+			ps.mu.Unlock()
+			w.IC.SetFault(nil)
+			// plans per ident
+			type pl struct {
+				ident string
+				plan  []planEntry
+			}
+			plans := []*pl{}
+			find := func(id string) *pl {
+				for _, p := range plans {
+					if p.ident == id {
+						return p
+					}
+				}
+				p := &pl{ident: id}
+				plans = append(plans, p)
+				return p
+			}
+			for _, c := range calls {
+				if c.Kind == "CCreateProc" {
+					p := find(c.Ident)
+					p.plan = append(p.plan, planEntry{Node: c.Node, Count: c.Count})
+				}
+			}
+			left := pr.markers()
+			markersLeft := false
+			planT := []string{}
+			for _, p := range plans {
+				for _, m := range left {
+					if m.Ident == p.ident {
+						markersLeft = true
+					}
+				}
+				es := make([]string, len(p.plan))
+				for i, e := range p.plan {
+					es[i] = vh.Pair(vh.Str(e.Node), vh.ZI(e.Count))
+				}
+				planT = append(planT, vh.Pair(vh.Str(p.ident), vh.List(es)))
+			}
+			b := "Etcd"
+			if backend == "redis" {
+				b = "Redis"
+			}
+			ct, res := make([]string, len(calls)), make([]string, len(calls))
+			for i, c := range calls {
+				ct[i], res[i] = c.mterm(), vh.Bool(c.OK)
+			}
+			row := func(p probe) string {
+				cells := make([]string, len(nodes))
+				for j := range nodes {
+					cells[j] = vh.Pair(vh.ZI(p.Status[j]), vh.ZI(p.Recorded[j]))
+				}
+				return vh.List(cells)
+			}
+			pt := make([]string, len(probes))
+			for i, p := range probes {
+				pt[i] = row(p)
+			}
+			it := make([]string, len(calls))
+			for i := range calls {
+				rows := []string{}
+				if i < len(intra) {
+					for _, p := range intra[i] {
+						rows = append(rows, row(p))
+					}
+				}
+				it[i] = vh.List(rows)
+			}
+			term := fmt.Sprintf("(mkCase %s %s %s %s %s %s %s %s %s)", b, vh.StrList(nodes), vh.List(planT), initTerm(d0, m0),
+				vh.List(ct), vh.List(res), vh.List(pt), vh.List(it), vh.Bool(markersLeft))
+			r.Count("backend=" + backend)
+			r.Count(fmt.Sprintf("deployments=%d", k))
+			r.Add(term, map[string]any{"backend": backend, "deployments": k, "calls": calls, "probes": probes, "markers_before": m0, "markers_after": left},
+				map[string]any{"backend": backend, "stream": "concurrent"}, len(calls) > 0)
+			done++
+		}
+		w.Close()
+	}
+	r.Finish("2-3 real CreateWorkload calls of the same (app, entrypoint) started at the same moment on one Calcium (redis two thirds, etcd one third), optional engine start failure; the deployments' store calls are serialised, attributed to their ident and probed after each call (and before every redis command inside a call)")
+}
+
 func TestC13(t *testing.T) {
 	storeStream(t)
 	deployStream(t)
 	raceStream(t)
+	concurrentStream(t)
 }
